@@ -19,10 +19,13 @@ From FA.Proofs Require Import Refine CaptureProofs CaptureSem CaptureGen.
    folded ([ce_attrs ce = []]).  The emitted tree needs nothing from any later environment.
    Missing: occurrences of names holding classes / modules / enums (attribute folding: the reference semantics has no
    class objects; the forward direction would be vacuous and the converse a statement about getattr) and of captured
-   helpers (C05's clause: [capture_then_resolve_partial] below and C05.v). *)
+   helpers (C05's clause: [capture_then_resolve_partial] below and C05.v).
+   [has_walrus e = false] (since F42): the reference semantics has no assignment expressions, and a name one binds is a
+   local of its lambda (never frozen, [capture_assigned_never_replaced] below) although the snapshot may hold a value
+   under that name - the equation would compare it with a semantics that does not know the binding. *)
 Theorem capture_freezes_partial :
   forall (B : backend) (ops : list string) ce e e',
-    ce_attrs ce = [] -> lit_names ce e -> rewrite_captured ce e = Ok e' ->
+    ce_attrs ce = [] -> lit_names ce e -> has_walrus e = false -> rewrite_captured ce e = Ok e' ->
     forall later, eval B ops later e' = eval B ops (vals ce ++ later) e.
 Proof. exact rw_sem. Qed.
 Print Assumptions capture_freezes_partial.
@@ -32,7 +35,8 @@ Print Assumptions capture_freezes_partial.
    callee of a call by name - the reference semantics has no function values. *)
 Theorem capture_then_resolve_partial :
   forall (B : backend) (ops : list string) ce e e1 e2,
-    ce_attrs ce = [] -> lit_names ce e -> rewrite_captured ce e = Ok e1 -> first_order e1 -> resolve_called e1 = Ok e2 ->
+    ce_attrs ce = [] -> lit_names ce e -> has_walrus e = false -> rewrite_captured ce e = Ok e1 -> first_order e1 ->
+    resolve_called e1 = Ok e2 ->
     forall later v, eval B ops (vals ce ++ later) e = Some v -> eval B ops later e2 = Some v.
 Proof. exact parse_callable_sem. Qed.
 Print Assumptions capture_then_resolve_partial.
@@ -56,6 +60,18 @@ Theorem capture_params_never_replaced :
 Proof. exact lambda_params_never_replaced. Qed.
 Print Assumptions capture_params_never_replaced.
 
+(* F42: a name bound by an assignment expression `(y := ..)` in the lambda's body is local to the lambda like a parameter:
+   whatever the snapshot holds under it is irrelevant, target and uses stay names *)
+Theorem capture_assigned_never_replaced :
+  forall ce ps b, rewrite_captured ce (Lambda ps b) = rewrite_captured (erase (ps ++ assigned b) ce) (Lambda ps b).
+Proof. exact lambda_bound_never_replaced. Qed.
+Print Assumptions capture_assigned_never_replaced.
+
+Theorem capture_assigned_on_ignore_stack :
+  forall st ps b x, In x (assigned b) -> is_arg ((ps ++ assigned b) :: st) x = true.
+Proof. exact rw_assigned_name_kept. Qed.
+Print Assumptions capture_assigned_on_ignore_stack.
+
 Theorem capture_bound_name_kept : forall ce st x, is_arg st x = true -> rw ce st (Name x) = Ok (Name x, Name x).
 Proof. exact rw_bound_name. Qed.
 Print Assumptions capture_bound_name_kept.
@@ -68,7 +84,8 @@ Theorem capture_defaults_in_enclosing_scope :
     lam_parts cls cs = Some (acls, aatoms, akids, b, lv) ->
     rw ce st (Other cls atoms cs) =
     same (sbind (rw_list (fun k => if is_argnode k then Ok (k, k) else rw ce st k) akids) (fun akids' =>
-          sbind (rw ce (lv_params lv :: st) b) (fun pb => Ok (Other cls atoms [Other acls aatoms akids'; fst pb])))).
+          sbind (rw ce ((lv_params lv ++ assigned b) :: st) b) (fun pb =>
+            Ok (Other cls atoms [Other acls aatoms akids'; fst pb])))).
 Proof. exact rw_lambda_defaults_outer. Qed.
 Print Assumptions capture_defaults_in_enclosing_scope.
 
@@ -98,12 +115,12 @@ Definition jets : value := VList [VDict [VStr "pt"] [VInt 5]; VDict [VStr "pt"] 
 Example freezes_runs :
   let body := Call (Attr (Attr (Name "e") "jets") "Select")
                    [Lambda ["j"] (BinOp BAdd (BinOp BAdd (Attr (Name "j") "pt") (Name "x")) (Name "g"))] [] [] in
-  lit_names ce0 body /\
+  lit_names ce0 body /\ has_walrus body = false /\
   exists body', rewrite_captured ce0 body = Ok body' /\
     eval B0 ["Select"] (vals ce0 ++ [("x", VInt 99); ("e", VDict [VStr "jets"] [jets])]) body = Some (VList [VInt 17; VInt 19]) /\
     eval B0 ["Select"] [("x", VInt 99); ("e", VDict [VStr "jets"] [jets])] body' = Some (VList [VInt 17; VInt 19]).
 Proof.
-  split; [lit_names_tac|].
+  split; [lit_names_tac|]. split; [reflexivity|].
   eexists; split; [vm_compute; reflexivity | split; vm_compute; reflexivity].
 Qed.
 
@@ -112,11 +129,11 @@ Example freezes_runs_all_nodes :
   let body := BoolOp And [Compare (Name "g") [CGt; CGt] [Name "x"; Const (CInt 0)];
                           Call (Lambda ["x"] (BinOp BAdd (Name "x") (Name "g"))) [Name "x"] [] [];
                           Call (Lambda ["q"; "x"] (BinOp BSub (Name "q") (Name "x"))) [] [Some "x"; Some "q"] [Name "x"; Name "g"]] in
-  lit_names ce0 body /\
+  lit_names ce0 body /\ has_walrus body = false /\
   exists body', rewrite_captured ce0 body = Ok body' /\
     eval B0 [] (vals ce0 ++ [("x", VInt 99); ("g", VInt 98)]) body = Some (VInt 8) /\
     eval B0 [] [("x", VInt 99); ("g", VInt 98)] body' = Some (VInt 8).
-Proof. split; [lit_names_tac|]. eexists; split; [vm_compute; reflexivity | split; vm_compute; reflexivity]. Qed.
+Proof. split; [lit_names_tac|]. split; [reflexivity|]. eexists; split; [vm_compute; reflexivity | split; vm_compute; reflexivity]. Qed.
 
 (* shadowing: nested lambda parameter, comprehension target (F08) and the passed lambda's own parameter *)
 Example scope_runs :
@@ -175,3 +192,33 @@ Example starred_argument_frozen :
   rewrite_captured ce0 (Lambda ["e"] (Call (Name "helper") [Other "Starred;value=n" [] [List [Name "x"; Attr (Name "e") "a"]]] [] []))
   = Ok (Lambda ["e"] (Call (Name "helper") [Other "Starred;value=n" [] [List [Const (CInt 2); Attr (Name "e") "a"]]] [] [])).
 Proof. vm_compute. reflexivity. Qed.
+
+(* F42: with y = 3 captured (and x = 2), lambda e: (y := e.x) + y + x  keeps both `y` and freezes `x`; inside a nested lambda
+   the assignment is local to that lambda only, the outer `y` is the captured one; a walrus in the default value of a nested
+   lambda binds in the enclosing lambda.  Before the fix the target itself became a constant: (3 := e.x) + 3. *)
+Definition walrus (x : string) (v : expr) : expr := Other "NamedExpr;target=n;value=n" [] [Name x; v].
+Definition ce_y : cenv := {| ce_nonlocals := []; ce_globals := [("y", CVal (CInt 3)); ("x", CVal (CInt 2))]; ce_attrs := [] |}.
+Example assigned_name_is_local :
+  rewrite_captured ce_y (Lambda ["e"] (BinOp BAdd (BinOp BAdd (walrus "y" (Attr (Name "e") "x")) (Name "y")) (Name "x")))
+  = Ok (Lambda ["e"] (BinOp BAdd (BinOp BAdd (walrus "y" (Attr (Name "e") "x")) (Name "y")) (Const (CInt 2)))) /\
+  assigned (BinOp BAdd (walrus "y" (Attr (Name "e") "x")) (Name "y")) = ["y"] /\
+  rewrite_captured ce_y (Lambda ["e"] (BinOp BAdd (Call (Attr (Attr (Name "e") "js") "Select")
+                                                          [Lambda ["j"] (BinOp BAdd (walrus "y" (Name "j")) (Name "y"))] [] [])
+                                                    (Name "y")))
+  = Ok (Lambda ["e"] (BinOp BAdd (Call (Attr (Attr (Name "e") "js") "Select")
+                                       [Lambda ["j"] (BinOp BAdd (walrus "y" (Name "j")) (Name "y"))] [] [])
+                                 (Const (CInt 3)))) /\
+  rewrite_captured ce_y (Lambda ["e"] (ListComp (BinOp BAdd (walrus "y" (Name "j")) (Name "y"))
+                                                [CompFor (Name "j") (Attr (Name "e") "js") [] false]))
+  = Ok (Lambda ["e"] (ListComp (BinOp BAdd (walrus "y" (Name "j")) (Name "y")) [CompFor (Name "j") (Attr (Name "e") "js") [] false])).
+Proof. repeat split; vm_compute; reflexivity. Qed.
+
+(* the rewriting before the fix: the parameters alone on the ignore stack *)
+Example assigned_name_frozen_pinned_refuted :
+  exists ce ps b, In "y" (assigned b) /\
+    (match rw ce [ps] b with Ok p => fst p | Err _ => Name "" end)
+    = BinOp BAdd (Other "NamedExpr;target=n;value=n" [] [Const (CInt 3); Attr (Name "e") "x"]) (Const (CInt 3)).
+Proof.
+  exists ce_y, ["e"], (BinOp BAdd (walrus "y" (Attr (Name "e") "x")) (Name "y")).
+  split; [left; reflexivity | vm_compute; reflexivity].
+Qed.
